@@ -3,7 +3,8 @@
    Model: C07/Model.v.  The process state is (cached engine, rules handed to the caller, one re-parsed
    engine object, expression cache, regex cache); the parser, `re`, the engine's match loop, the legacy
    tuple loop and the file readers are ORACLES (fields of [world]; every theorem is for all worlds).
-   [fx = false] is /repo as it is, [fx = true] is /repo with proposed_fixes/C07-reset-cached-engine.diff.
+   [fx = true] is /repo as it is (since e98b1f7: get_all_rules resets _cached_engine on entry), [fx = false]
+   the tree before that commit (kept as history, see the end of the file).
    The facts about the source that the cache model rests on are regenerated on every run
    (Gen/C07CacheKeys.v, tools/c07_cache_keys.py) and compared below. *)
 From Coq Require Import String List Bool.
@@ -61,28 +62,24 @@ Proof. exact outs_cache_free. Qed.
 Print Assumptions c07_outputs_cache_free.
 
 (* ---- history independence ---------------------------------------------------------------------- *)
-(* full strength: for every world, history h and operation o, the output of o after h is its output in
-   a fresh process that replayed only the last load (and the last engine.parse) of h *)
-Definition c07_history_independent_statement : Prop := history_independent false.
+(* THE CLAIM, at full strength: for every world (parser, regex library, readers, engine), every history h
+   and every operation o, the output of o after h is its output in a fresh process that replayed only the
+   last load (and the last engine.parse) of h.  [history_independent true] is the model of the tree since
+   commit e98b1f7 (get_all_rules resets _cached_engine on entry). *)
+Theorem c07_history_independent_fixed : history_independent true.
+Proof. exact history_independent_fixed. Qed.
+Print Assumptions c07_history_independent_fixed.
 
-(* /repo as it is does NOT satisfy it: [load a .rules file; load a CSV file; classify] *)
-Theorem c07_history_independent_refuted : ~ c07_history_independent_statement.
-Proof. exact not_history_independent. Qed.
-Print Assumptions c07_history_independent_refuted.
+(* ... and the source under test IS that variant: the extractor's flag (Gen/C07CacheKeys.v, re-read from
+   merchant_utils.py on every run) must be [true] for this to type-check.  A tree that loses the reset
+   breaks this obligation (and the writer list above). *)
+Theorem c07_history_independent_of_source :
+  history_independent C07CacheKeys.get_all_rules_resets_cached_engine.
+Proof. exact (history_independent_of_flag _ eq_refl). Qed.
+Print Assumptions c07_history_independent_of_source.
 
-(* ... and not only in a toy world: whenever the engine of a .rules file f and the tuples of a later
-   non-.rules load g (CSV / unparsable / none) classify some transaction differently *)
-Theorem c07_history_independent_refuted_generally :
-  forall (W : world) (f : file W) (g : option (file W)) (t : txn W) (rs : ruleset W),
-    engine_of W (Some f) = Some rs -> engine_of W g = None ->
-    pure W (classify_with W rs (returned_of W g) t) <> pure W (classify_legacy W (returned_of W g) t) ->
-    out_after W false [Load (Some f); Load g] (Classify t)
-    <> fresh W false (Classify t) [Load (Some f); Load g].
-Proof. exact refuted_whenever_paths_differ. Qed.
-Print Assumptions c07_history_independent_refuted_generally.
-
-(* strongest part that holds for /repo as it is (and for the fixed variant): the last load of h is a
-   successful .rules load or no load of h is one; or o is not a classification through normalize_merchant *)
+(* what holds for BOTH variants (with or without the reset): the last load of h is a successful .rules load
+   or no load of h is one; or o is not a classification through normalize_merchant *)
 Theorem c07_history_independent_partial :
   forall (W : world) (fx : bool) (h : list (op W)) (o : op W),
     stale_free W h = true \/ is_classify W o = false ->
@@ -103,18 +100,27 @@ Theorem c07_history_independent_partial_no_rules_before_other :
 Proof. exact history_independent_no_rules_before_other. Qed.
 Print Assumptions c07_history_independent_partial_no_rules_before_other.
 
-(* with get_all_rules resetting _cached_engine on entry: the full statement, all histories *)
-Theorem c07_history_independent_fixed : history_independent true.
-Proof. exact history_independent_fixed. Qed.
-Print Assumptions c07_history_independent_fixed.
+(* ---- HISTORY (the tree before commit e98b1f7; kept as the regression's description) -------------- *)
+(* Without the reset ([fx = false]) the full statement is false: [load a .rules file; load a CSV file;
+   classify] is answered by the old engine.  Finding C07/stale-cached-engine-after-non-rules-load, fixed by
+   proposed_fixes/C07-reset-cached-engine.diff = e98b1f7.  These are theorems about the OLD variant of the
+   model only; nothing here is claimed of the current tree. *)
+Definition c07_history_independent_before_e98b1f7 : Prop := history_independent false.
 
-(* the statement for whichever variant the source under test is: full strength as soon as the extractor
-   sees the reset *)
-Theorem c07_history_independent_of_source :
-  C07CacheKeys.get_all_rules_resets_cached_engine = true ->
-  history_independent C07CacheKeys.get_all_rules_resets_cached_engine.
-Proof. exact (history_independent_of_flag _). Qed.
-Print Assumptions c07_history_independent_of_source.
+Theorem c07_before_e98b1f7_refuted : ~ c07_history_independent_before_e98b1f7.
+Proof. exact not_history_independent. Qed.
+Print Assumptions c07_before_e98b1f7_refuted.
+
+(* ... in every world in which the engine of a .rules file f and the tuples of a later non-.rules load g
+   (CSV / unparsable / none) classify some transaction differently *)
+Theorem c07_before_e98b1f7_refuted_generally :
+  forall (W : world) (f : file W) (g : option (file W)) (t : txn W) (rs : ruleset W),
+    engine_of W (Some f) = Some rs -> engine_of W g = None ->
+    pure W (classify_with W rs (returned_of W g) t) <> pure W (classify_legacy W (returned_of W g) t) ->
+    out_after W false [Load (Some f); Load g] (Classify t)
+    <> fresh W false (Classify t) [Load (Some f); Load g].
+Proof. exact refuted_whenever_paths_differ. Qed.
+Print Assumptions c07_before_e98b1f7_refuted_generally.
 
 (* ---- frame -------------------------------------------------------------------------------------- *)
 (* only loads change the cached engine and the rules the caller holds; only engine.parse changes the
@@ -128,8 +134,9 @@ Proof. exact frame. Qed.
 Print Assumptions c07_classify_frame.
 
 (* ---- non-vacuity -------------------------------------------------------------------------------- *)
-(* the witness: after [load rules; load csv] the unfixed model answers with the engine (1 = Transport),
-   a fresh process with the CSV tuples (2 = Travel); the fixed model agrees with the fresh process *)
+(* the regression witness: after [load rules; load csv] the model WITHOUT the reset answers with the engine
+   (1 = Transport), a fresh process with the CSV tuples (2 = Travel); the model of the current tree agrees
+   with the fresh process *)
 Example c07_witness :
   out_after toy false witness_history witness_op = @OResult toy 1 /\
   fresh toy false witness_op witness_history = @OResult toy 2 /\
